@@ -40,6 +40,13 @@ EVIDENCE = {
     "components": {"real": "optuna.storages._heartbeat (fail_stale_trials, HeartbeatThread), RetryFailedTrialCallback, RDBStorage/_CachedStorage heartbeat SQL, Study.optimize/_run_trial, SQLAlchemy, sqlite3", "stub": "threads/events of the heartbeat, clocks incl. the database clock, process death, OS scheduler, SQLite busy handler"},
 }
 
+_HOOKS: dict[str, Any] = {}
+
+
+def _make_recorder() -> Any:
+    return _HOOKS["Recorder"]()
+
+
 REGIONS = ["objective", "objective", "objective", "sweep", "sweep", "callback", "ask", "any"]
 
 
@@ -76,8 +83,21 @@ def gen_plan(seed: int, run: int, tier: str) -> dict:
             faults.append({"victim": v, "region": "stall", "nth": frng.choice([1, 1, 2, 3]), "dur": g + rng.choice([1, 2, 5]) * hb})
             for t in workers[v]["trials"]:
                 t["dur"] = max(t["dur"], g + 8 * hb)
+    # a short stall of a live worker's heartbeat thread: longer than 2 x interval but well
+    # inside an explicitly configured longer grace period - nobody may touch its trial
+    if grace is not None and grace >= 10 * hb and rng.random() < 0.5:
+        live = [w for w in sorted(workers) if w not in {f["victim"] for f in faults}]
+        if live:
+            v = rng.choice(live)
+            d = rng.choice([2.5, 4.0, 6.0]) * hb
+            faults.append({"victim": v, "region": "stall", "nth": frng.choice([1, 1, 2]), "dur": d, "short": True})
+            for t in workers[v]["trials"]:
+                t["dur"] = max(t["dur"], d + 4 * hb)
     cfg = {
         "deployment": rng.choice(["rdb", "cached"]),
+        # workers and sweepers may hold a storage object that went through pickle (spawned
+        # process, joblib/dask worker): it must behave like the original
+        "pickled_storages": rng.random() < 0.3,
         "heartbeat_interval": hb,
         "grace_period": grace,
         "max_retry": max_retry,
@@ -181,6 +201,9 @@ def _run(plan: dict, sim: sched.Sim, ch: sched.Chooser, dep: deploy.Deployment) 
     class Recorder:
         """failed_trial_callback: records, then runs the real RetryFailedTrialCallback."""
 
+        def __reduce__(self) -> Any:
+            return (_make_recorder, ())
+
         def __init__(self) -> None:
             self.inner = RetryFailedTrialCallback(max_retry=cfg["max_retry"], inherit_intermediate_values=cfg.get("inherit_iv", False))
 
@@ -193,6 +216,7 @@ def _run(plan: dict, sim: sched.Sim, ch: sched.Chooser, dep: deploy.Deployment) 
             finally:
                 region[name].pop()
 
+    _HOOKS["Recorder"] = Recorder
     beat_ids: set = set()
     beats: dict[str, int] = {}
     stalled: set = set()
@@ -201,6 +225,13 @@ def _run(plan: dict, sim: sched.Sim, ch: sched.Chooser, dep: deploy.Deployment) 
 
     def make_storage(proc: Any) -> Any:
         st = dep.db.new_storage(proc, cfg, heartbeat_interval=hb, grace_period=grace, failed_trial_callback=Recorder())
+        if cfg.get("pickled_storages") and proc is not boot:
+            import pickle
+
+            with sim.atomic():
+                st = pickle.loads(pickle.dumps(st))
+            dep.db.storages.append(st)
+            sim.count("storage_through_pickle")
         # record every FAIL transition that returns True
         orig = st.set_trial_state_values
 
@@ -222,7 +253,10 @@ def _run(plan: dict, sim: sched.Sim, ch: sched.Chooser, dep: deploy.Deployment) 
                     beats[root] = beats.get(root, 0) + 1
                     if beats[root] - 1 == f["nth"]:
                         f["fired"] = True
-                        stalled.add(root)
+                        if not f.get("short"):
+                            stalled.add(root)
+                        else:
+                            sim.count("stall_heartbeat_short")
                         sim.count("stall_heartbeat")
                         sim.note("stall", root, f["dur"])
                         sim.sleep(f["dur"])  # the heartbeat thread hangs; the worker lives on
